@@ -30,7 +30,6 @@ use crate::error::Error;
 use crate::util::{ContentEncoding, encode_content};
 
 /// Result of creating a new MLS group
-#[derive(Debug)]
 pub struct GroupResult {
     /// The stored group
     pub group: group_types::Group,
@@ -39,7 +38,6 @@ pub struct GroupResult {
 }
 
 /// Result of updating a group
-#[derive(Debug)]
 pub struct UpdateGroupResult {
     /// A Kind:445 Event containing the proposal or commit message. To be published to the group relays.
     pub evolution_event: Event,
@@ -50,7 +48,7 @@ pub struct UpdateGroupResult {
 }
 
 /// Configuration data for the Group
-#[derive(Debug, Clone)]
+#[derive(Clone)]
 pub struct NostrGroupConfigData {
     /// Group name
     pub name: String,
@@ -69,7 +67,7 @@ pub struct NostrGroupConfigData {
 }
 
 /// Configuration for updating group data with optional fields
-#[derive(Debug, Clone, Default)]
+#[derive(Clone, Default)]
 pub struct NostrGroupDataUpdate {
     /// Group name (optional)
     pub name: Option<String>,
@@ -89,6 +87,68 @@ pub struct NostrGroupDataUpdate {
     pub admins: Option<Vec<PublicKey>>,
     /// Nostr group ID for message routing (optional, for rotation per MIP-01)
     pub nostr_group_id: Option<[u8; 32]>,
+}
+
+// Manual `Debug` impls: these types hold MLS / Nostr group ids and image key material,
+// which must never be printed (see SECURITY.md). Presence is shown, values are redacted.
+
+fn redacted<T>(value: &Option<T>) -> &'static str {
+    match value {
+        Some(_) => "Some([REDACTED])",
+        None => "None",
+    }
+}
+
+impl std::fmt::Debug for GroupResult {
+    fn fmt(&self, f: &mut std::fmt::Formatter<'_>) -> std::fmt::Result {
+        f.debug_struct("GroupResult")
+            .field("group", &"[REDACTED]")
+            .field("welcome_rumors", &self.welcome_rumors.len())
+            .finish()
+    }
+}
+
+impl std::fmt::Debug for UpdateGroupResult {
+    fn fmt(&self, f: &mut std::fmt::Formatter<'_>) -> std::fmt::Result {
+        f.debug_struct("UpdateGroupResult")
+            .field("evolution_event_id", &self.evolution_event.id)
+            .field(
+                "welcome_rumors",
+                &self.welcome_rumors.as_ref().map(|rumors| rumors.len()),
+            )
+            .field("mls_group_id", &"[REDACTED]")
+            .finish()
+    }
+}
+
+impl std::fmt::Debug for NostrGroupConfigData {
+    fn fmt(&self, f: &mut std::fmt::Formatter<'_>) -> std::fmt::Result {
+        f.debug_struct("NostrGroupConfigData")
+            .field("name", &self.name)
+            .field("description", &self.description)
+            .field("image_hash", &redacted(&self.image_hash))
+            .field("image_key", &redacted(&self.image_key))
+            .field("image_nonce", &redacted(&self.image_nonce))
+            .field("relays", &self.relays)
+            .field("admins", &self.admins)
+            .finish()
+    }
+}
+
+impl std::fmt::Debug for NostrGroupDataUpdate {
+    fn fmt(&self, f: &mut std::fmt::Formatter<'_>) -> std::fmt::Result {
+        f.debug_struct("NostrGroupDataUpdate")
+            .field("name", &self.name)
+            .field("description", &self.description)
+            .field("image_hash", &redacted(&self.image_hash))
+            .field("image_key", &redacted(&self.image_key))
+            .field("image_nonce", &redacted(&self.image_nonce))
+            .field("image_upload_key", &redacted(&self.image_upload_key))
+            .field("relays", &self.relays)
+            .field("admins", &self.admins)
+            .field("nostr_group_id", &redacted(&self.nostr_group_id))
+            .finish()
+    }
 }
 
 /// Pending member changes from proposals that need admin approval
